@@ -92,8 +92,11 @@ fn signature(plan: &Plan, ctx: &Ctx) -> (u64, bool) {
     d.str(&plan.codec);
     d.u8(u8::from(cfg!(feature = "r09"))); // the two feature configurations are different systems
     d.u64(u64::from(plan.flavour));
-    d.u8(crate::widths::width_class(plan.bits));
+    d.u64(plan.bits as u64);
     d.u8(plan.records.first().map_or(255, |v| value_class(plan.bits, v)));
+    d.u64(plan.records.first().map_or(0, |v| v.len() as u64)); // byte length: selects header forms
+    d.u64(plan.records.len() as u64);
+    d.u8(u8::from(!plan.write.chunks.is_empty()) | u8::from(!plan.read.chunks.is_empty()) << 1 | u8::from(!plan.write.prefill.is_empty()) << 2);
     d.u8(plan.config as u8);
     for k in ctx.fired.keys() {
         d.str(k);
